@@ -5,7 +5,7 @@ Driver for stream `blocks` (C06): one op per line, one observation per line.
   hdr <idx> <hash> <prev> <ts> <nc> <psr> <wit>   -> ok             (a header the node already stores)
   node bh=<n> root=<r>                       -> ok
   bal <name>=<n> ...                         -> ok
-  pool <id>,<id>...|-                        -> ok
+  pool <id>/<wit>,<id>/<wit>...|-            -> ok                  (mempool: tx hash and witness id)
   sig <wit> <hash> <addr> <b>                -> ok                  (fact: does the witness sign the hash for addr)
   undecodable                                -> ok                  (bytes that do not decode never reach AddBlock)
   addblock idx= sre= hash= prev= ts= nc= psr= wit= mroot= cmroot= newroot= store= txs=<tx>,..|-
@@ -74,7 +74,7 @@ def errName : Err → String
   | .indexFuture => "index-future" | .indexOld => "index-old" | .srFlag => "srflag"
   | .prevUnknown => "prev-unknown" | .stateRoot => "stateroot" | .prevHash => "prevhash"
   | .hdrIndex => "hdr-index" | .timestamp => "timestamp" | .witness => "witness"
-  | .hashMismatch => "hash-mismatch" | .merkle => "merkle" | .tx => "tx" | .store => "store"
+  | .hashMismatch => "hash-mismatch" | .merkle => "merkle" | .dup => "dup" | .tx => "tx" | .store => "store"
 
 def doAddBlock (st : DState) (ws : List String) : Option (DState × String) := do
   let idx ← (← kv ws "idx").toNat?
@@ -140,7 +140,14 @@ def step (st : DState) (ws : List String) : DState × String :=
       | _ => none)
     ({ st with bals := ps }, "ok")
   | ["pool", ids] =>
-    match (if ids == "-" then some [] else (ids.splitOn ",").mapM hexNat) with
+    let one (tok : String) : Option Tx :=
+      match tok.splitOn "/" with
+      | [i, w] => do
+        let i ← hexNat i
+        let w ← witNat w
+        pure { id := i, wit := w, sender := 0, fee := 0, netFee := 0, conflicts := [] }
+      | _ => none
+    match (if ids == "-" then some [] else (ids.splitOn ",").mapM one) with
     | some l => ({ st with node := { st.node with pool := l } }, "ok")
     | none => (st, "bad-op")
   | ["sig", w, h, a, b] =>
